@@ -3,6 +3,7 @@ module verif.local/sim
 go 1.26
 
 require (
+	github.com/anishathalye/porcupine v1.3.0
 	github.com/GoogleCloudPlatform/grpc-gcp-go/grpcgcp v0.0.0
 	google.golang.org/grpc v1.56.3
 	google.golang.org/protobuf v1.30.0
